@@ -74,7 +74,7 @@ def cases(d):
     for _ in range(d.randint(2, 10)):
         r = d.randint(0, 99)
         if n < 4 and r < 22:
-            ops.append(["new", d.randint(0, 7)])
+            ops.append(["new", d.randint(0, 7)] + (["D"] if d.chance(30) else []))      # "D": an instance of the derived class TD
             n += 1
         elif r < 32:
             ops.append(["nl", d.randint(0, n - 1), [d.randint(0, 7) for _ in range(d.randint(1, 3))]] if d.chance(50)
@@ -97,6 +97,9 @@ def cases(d):
             inl = [["expr", ["dyn", "arr[%d].%s" % (e, pick())]]]
             if d.chance(40):
                 inl.append(["expr", ["not", ["dyn", "arr[%d].%s" % (1 - e, pick())]]])
+            if d.chance(30):
+                # every element's block, referenced through the index of an inline foreach
+                inl = [["foreach", "arr", "i", None, [["expr", ["dynel", "arr", ["iv", "i"], pick()]]]]] + (inl[1:] if d.chance(50) else [])
             ops.append(["hcall", [i, j], inl, d.seed()])
             if d.chance(50):
                 # the same reference again after the referenced element's list has changed (a foreach inside the block
@@ -108,6 +111,16 @@ def cases(d):
 
 
 HOLDER_SRC = '''
+@vsc.randobj
+class TD(T):
+    """derived class: one more dynamic block, whose name sorts before the inherited ones; nothing references it"""
+    def __init__(self):
+        super().__init__()
+    @vsc.dynamic_constraint
+    def a0(self):
+        self.a == 6
+        self.b == 1
+
 @vsc.randobj
 class H(object):
     def __init__(self):
@@ -353,7 +366,7 @@ def run_case(case):
         where = "step %d %s" % (step, cjson(op)[:160])
         if op[0] == "new":
             try:
-                o = ns["T"]()
+                o = ns["TD" if len(op) > 2 and op[2] == "D" else "T"]()
                 o.k = op[1]
                 o.nl.append(op[1] % 8)
                 objs.append(o)
@@ -502,6 +515,7 @@ def run_case(case):
                     hdyn[p + dn] = [prefix_stmt(s, p) for s in ds]
             if i == j:
                 continue
+            env0["#arr"] = 2
             allv, sols = flat.enumerate_solutions(htypes, hrf, env0, hstmts + inline, hdyn)
             st, exc = flat.do_call(ns, h, "randomize_with", inline, seed)
             info["calls"] += 1
